@@ -149,6 +149,8 @@ func runCase(j job) (res result) {
 		g := make([]byte, 64)
 		rand.New(rand.NewSource(j.Seed)).Read(g)
 		data = append(data, g...)
+	case "corruptmark": // what Database.Corrupt() appends when a check fails in a running server
+		data = append(data, bytes.Repeat([]byte{0xff}, tailSize)...)
 	}
 	const name = "c.db"
 	os.Remove(name)
@@ -487,6 +489,12 @@ func main() {
 				jobs = append(jobs, job{Db: d, File: info.file, Cut: c, Fill: fill, Seed: r.Int63()})
 			}
 		}
+		// the corrupt marker after a state (and after a state + shutdown marker)
+		for i := 0; i < 2 && len(info.states) > 0; i++ {
+			e := int(info.states[r.Intn(len(info.states))].Off) + stateLen
+			jobs = append(jobs, job{Db: d, File: info.file, Cut: e, Fill: "corruptmark", Seed: r.Int63()})
+		}
+		jobs = append(jobs, job{Db: d, File: info.file, Cut: n, Fill: "corruptmark", Seed: r.Int63()})
 	}
 	dbs = append(dbs, pe) // index ndb+1
 	for i := range jobs {
@@ -518,6 +526,7 @@ func main() {
 				of := filepath.Join(dir, fmt.Sprintf("out%d.txt", attempt))
 				js, _ := json.Marshal(todo)
 				os.WriteFile(jf, js, 0644)
+				os.Remove(of)
 				cmd := exec.Command(os.Args[0], "worker", jf, of)
 				cmd.Dir = dir
 				var stderr bytes.Buffer
@@ -556,7 +565,7 @@ func main() {
 					}
 					f.Close()
 				}
-				if ndone == len(todo) {
+				if ndone >= len(todo) {
 					break
 				}
 				// the worker died in case `started` (or before starting one)
@@ -625,6 +634,8 @@ func main() {
 			g := make([]byte, 64)
 			rand.New(rand.NewSource(j.Seed)).Read(g)
 			data = append(data, g...)
+		case "corruptmark":
+			data = append(data, bytes.Repeat([]byte{0xff}, tailSize)...)
 		}
 		stripped := bytes.TrimRight(data, "\x00")
 		// enough of the end of the file for the open decision: at least 128 bytes, and at
